@@ -326,21 +326,21 @@ def run(ctx):
     ctx.assumptions = ASSUMPTIONS
     binary = build.build("bloch", "asan")
     jobs = []
-    for rep in range(ctx.n(4, 60)):
+    for rep in range(ctx.n(4, 30)):
         for tag, src in hostile_programs(ctx.rng("hostile%d" % rep)):
             jobs.append(("hostile:" + tag, src, dict(kind="hostile", rep=rep, tag=tag), {}))
-    for i in range(ctx.n(700, 20000)):
+    for i in range(ctx.n(700, 6000)):
         made = make_program(ctx.rng("c07-%d" % i))
         if made:
             jobs.append(("classical:%d" % i, made[1], dict(kind="classical", index=i), {}))
-    for i in range(ctx.n(500, 12000)):
+    for i in range(ctx.n(500, 4000)):
         prof = ["flags", "qasm", "handles", "tracked", "measure"][i % 5]
         ir, src = qlang.generate(ctx.rng("q-%d" % i), prof)
         jobs.append(("quantum:%s:%d" % (prof, i), src, dict(kind="quantum", index=i, profile=prof),
                      {"BLOCH_VERIF_SEED": str(ctx.seed * 7 + i)}))
     try:
         from . import c08
-        for i in range(ctx.n(300, 8000)):
+        for i in range(ctx.n(300, 3000)):
             src = c08.program_source(ctx.rng("cls-%d" % i))
             if src:
                 jobs.append(("classes:%d" % i, src, dict(kind="classes", index=i), {}))
@@ -355,7 +355,7 @@ def run(ctx):
         seen[k] = seen.get(k, 0) + 1
         if seen[k] % stride[k] == 0:
             seeds.append((tag, src, env))
-    jobs += mutated_jobs(ctx, seeds, ctx.n(6, 24))
+    jobs += mutated_jobs(ctx, seeds, ctx.n(6, 12))
 
     # a third of the programs also run with a collection forced at every statement boundary: the
     # collector's own walks (mark, sweep, audit) are code an accepted program can crash in
